@@ -67,6 +67,10 @@ type Disk struct {
 	TruncCalls int
 	FaultsHit  int
 	NoLog      bool // do not record mutations (used for materialised crash images whose log is not needed)
+	// EOFAtEnd makes a ReadAt that is satisfied in full and ends exactly at the end of the file
+	// return io.EOF with the data, which io.ReaderAt allows (an *os.File does not do it; the
+	// caller-supplied ReaderAt of the storage package may).
+	EOFAtEnd bool
 }
 
 func NewDisk(name string) *Disk {
@@ -144,6 +148,8 @@ func (d *Disk) ReadAt(p []byte, off int64) (int, error) {
 	var err error
 	if int64(n) > d.size-off {
 		n = int(d.size - off)
+		err = io.EOF
+	} else if d.EOFAtEnd && int64(n) == d.size-off {
 		err = io.EOF
 	}
 	rem := p[:n]
